@@ -50,6 +50,7 @@ Inductive event :=
 | Cancel (k : nat)
 | InboxStop | InboxStart (opened : bool) | RegRemove | Sleep
 | Enq (e : env)                                       (* ghost: an envelope accepted into the actor's ring *)
+| Sent (n : nat)                                      (* ghost: a user message was sent to the actor (accepted or not) *)
 | Escaped                                             (* a panic left the worker goroutine: process dies *)
 | OutOfFuel.
 
@@ -84,9 +85,10 @@ Definition upd_istopped s b := {| inc := inc s; restarts := restarts s; mbuf := 
 (** ** Engine operations on the actor itself (engine.go) *)
 
 (* SendLocal: registry hit => Inbox.Send (push); miss => DeadLetterEvent *)
+Definition sent_of (e : env) : list event := match emsg e with User n => [Sent n] | _ => [] end.
 Definition send_self (s : pst) (e : env) : pst * list event :=
-  if registered s then (upd_queue s (queue s ++ [e]), [Enq e])
-  else (s, [EvDeadLetter (emsg e)]).
+  if registered s then (upd_queue s (queue s ++ [e]), sent_of e ++ [Enq e])
+  else (s, sent_of e ++ [EvDeadLetter (emsg e)]).
 
 (* sendPoisonPill: miss => dead letter + cancel at once; hit => push, then the
    re-check of the registry (still registered here: same goroutine) *)
